@@ -13,7 +13,11 @@ import torch
 
 from harness import tlc
 
-HOSTILE = ["a", 'a"', '"', "\\", '", "', "1", 1, "", "a.b", "a/b", "[", '["a"]', 0, "0", "]"]
+HOSTILE = ["a", 'a"', '"', "\\", '", "', "1", 1, "", "a.b", "a/b", "[", '["a"]', 0, "0", "]",
+           # non-ASCII text: the two lone surrogates of U+1F600 as a 2-character key, the astral character itself, a lone surrogate,
+           # Latin-1, NUL, a line separator, the text of a JSON escape; bool keys (a bool is an int: True == 1, False == 0 as dict keys
+           # of DIFFERENT dicts must still come back as the type they went in), negative and large integers
+           "\ud83d\ude00", "\U0001F600", "\ud83d", "\u00e9", "\x00", "\u2028", "\\ud83d", "\\u00e9", True, False, -1, 10, 2, "10", "2", 2 ** 40]
 
 ORACLE = r"""
 ---- MODULE StateDictOracle ----
@@ -27,7 +31,8 @@ ASSUME JsonSerialize(IOEnv.OUT, [i \in 1..Len(Cases) |-> IF Cases[i].mode = "dic
 ====
 """
 MCKEYS = ('MCKeys == {[t |-> "s", v |-> <<97>>], [t |-> "s", v |-> <<97, 34>>], [t |-> "s", v |-> <<34>>], [t |-> "s", v |-> <<92>>], '
-          '[t |-> "s", v |-> <<34, 44, 32, 34>>], [t |-> "s", v |-> <<49>>], [t |-> "i", v |-> <<49>>], [t |-> "s", v |-> <<>>]}\n')
+          '[t |-> "s", v |-> <<34, 44, 32, 34>>], [t |-> "s", v |-> <<49>>], [t |-> "i", v |-> <<49>>], [t |-> "s", v |-> <<>>], '
+          '[t |-> "s", v |-> <<200, 201>>], [t |-> "s", v |-> <<202>>], [t |-> "s", v |-> <<200>>]}\n')
 MC_CFG = """SPECIFICATION Spec
 CONSTANTS Keys <- MCKeys
  MaxTerm = {t}
@@ -42,6 +47,8 @@ CHECK_DEADLOCK FALSE
 
 
 def enc_key(k):
+    if isinstance(k, bool):
+        return {"t": "b", "v": [ord(c) for c in str(k)]}
     if isinstance(k, int):
         return {"t": "i", "v": [ord(c) for c in str(k)]}
     return {"t": "s", "v": [ord(c) for c in k]}
@@ -49,7 +56,7 @@ def enc_key(k):
 
 def dec_key(k):
     s = "".join(chr(c) for c in (k["v"] or []))
-    return int(s) if k["t"] == "i" else s
+    return (s == "True") if k["t"] == "b" else int(s) if k["t"] == "i" else s
 
 
 def terminals_of(d, prefix=()):
@@ -148,7 +155,7 @@ def check_dict_case(ctx, terms, exp):
         got = unflatten(flat)
     except Exception as ex:  # noqa
         ctx.violation(f"flatten/unflatten raised {type(ex).__name__}: {str(ex)[:120]} on {terms}", {"kind": "statedict_oracle", "clause": "raised"},
-                      {"mode": "dict", "terms": [[list(p), k] for p, k in terms]})
+                      {"mode": "dict", "terms": [[[enc_key(x) for x in p], k] for p, k in terms]})
         return False
     if len(flat) != exp["nflat"]:
         probs.append(("flat_key_count(injectivity)", exp["nflat"], len(flat)))
@@ -166,7 +173,7 @@ def check_dict_case(ctx, terms, exp):
         probs.append(("unflatten(flatten(d))", repr(want)[:200], repr(got)[:200]))
     for clause, e, o in probs:
         ctx.violation(f"flatten/unflatten disagrees with StateDict spec on {terms}: {clause}: expected {e}, observed {o}",
-                      {"kind": "statedict_oracle", "clause": clause.split("(")[0]}, {"mode": "dict", "terms": [[list(p), k] for p, k in terms]})
+                      {"kind": "statedict_oracle", "clause": clause.split("(")[0]}, {"mode": "dict", "terms": [[[enc_key(x) for x in p], k] for p, k in terms]})
     return not probs
 
 
@@ -372,7 +379,7 @@ def run(ctx):
     ctx.put("rule", f"MC: every well-formed nested dict with <={t} terminals, depth<={d}, fan-out<=2 over 8 hostile keys (quotes, "
                     f"backslash, separator look-alikes, int 1 vs str '1', empty string); oracle: every tree with <={2 if quick else 3} terminals over {keys} "
                     f"({len(trees)}) + seeded random trees of depth<=6 + random OptimizerModule graphs of nesting<=4; non-trivial = nested")
-    ctx.sample({"dict_terminals": [[list(p), k] for p, k in all_trees[len(trees) // 2]]})
+    ctx.sample({"dict_terminals": [[[ascii(x) for x in p], k] for p, k in all_trees[len(trees) // 2]]})
     ctx.sample({"module_term": terms[0][0], "store_non_tensors": terms[0][1]})
     ctx.assume("flat-key text is not compared with the spec's JSON model; only injectivity/round-trip of the real encoding is demanded")
 
@@ -380,7 +387,7 @@ def run(ctx):
 def replay(ctx, data):
     r = data["replay"]
     if r["mode"] == "dict":
-        terms = tuple((tuple(p), k) for p, k in r["terms"])
+        terms = tuple((tuple(dec_key(x) if isinstance(x, dict) else x for x in p), k) for p, k in r["terms"])
         check_dict_case(ctx, terms, oracle_eval([dict_case(terms)])[0])
     else:
         def tup(t):
